@@ -1,50 +1,67 @@
 (* TotalTables.v — C13 for trees WITH tables and comment range markers:
-   if the local evaluation of every element succeeds, and every w:tc ends with
-   paragraph content (as Word's rule "a cell ends with a w:p" guarantees), the
-   whole walk succeeds, the collector finishes and the views render.
+   if the local evaluation of every element succeeds, the whole walk succeeds,
+   the collector finishes and the views render.
+
+   STATE OF THE CODE.  TagRunner._close_table_cell was repaired (it returns at
+   once when the tree is empty or its newest table has no row, and appends a
+   blank cell when a horizontally merged cell is to be duplicated into a row
+   that has no cell yet); Collector.close_table_cell mirrors the repaired
+   method.  This file was first written against the unrepaired method, where
+   closing a cell could raise IndexError for structural reasons; what was
+   found then is kept below as history, with the statements that hold now.
 
    Main results
-     close_table_cell_ok_iff   under J and the local conditions (gather_Pr, the
-                               gridSpan value) close_table_cell succeeds IFF
-                               spine_ok 3 (c_tree s)  [root and newest table
-                               non-empty]  and, when duplicate_merged_cells
-                               and gridSpan > 1, spine_ok 4 (c_tree s)
-                               [newest row non-empty]; otherwise IndexError
+     close_table_cell_total_now  under J and the local conditions (gather_Pr,
+                                 the gridSpan value) close_table_cell ALWAYS
+                                 succeeds and preserves J
+     close_table_cell_ok_iff_now the exact condition: gather_Pr succeeds and,
+                                 if the newest table has a row, the gridSpan
+                                 value parses
+     walk_total_all, collect_total_all(_strong), rendering_total_all
+                                 totality under all_local_ok3: local
+                                 evaluations only, NO condition on what a
+                                 w:tc contains
+     all_local_ok2_all_local_ok3, all_local_ok2_weak_all_local_ok3,
+     all_local_ok'_all_local_ok3 the earlier hypotheses are special cases
      walk_total_tables, collect_total_tables(_strong), rendering_total_tables
+                                 the earlier theorems (hypothesis
+                                 all_local_ok2, with the structural clause
+                                 tc_ok); kept, now instances of the above
      all_local_ok'_all_local_ok2   TotalFacts' hypothesis is a special case
      cell_ok_ends_with_par         a cell whose last paragraph-bearing child is
                                    a w:p satisfies the structural condition
      tt_doc_ok / tt_doc_collects / tt_doc_result    the example
+     walk_total_tables_repaired, walk_total_tables_dup_repaired,
+     cell_without_paragraph_repaired, cx_all_local_ok3, cx_extracted,
+     cx_dup_result               the former counterexample trees are extracted
 
-   FINDINGS
-   1. The structural condition that was expected to suffice, "some w:p below
-      the w:tc" (local_ok2_weak), does not:
-        walk_total_tables_counterexample      <w:tc><w:customXml><w:customXml>
-          <w:p/></w:customXml><w:tbl>...</w:tbl></w:customXml></w:tc> — a
-          structure the XSD allows — raises IndexError in close_table_cell
-          for both settings of duplicate_merged_cells;
-        walk_total_tables_dup_counterexample  a gridSpan=2 cell holding
-          <w:customXml><w:p/><w:sdt>..<w:p/>..</w:sdt></w:customXml> raises
-          IndexError when duplicate_merged_cells = True only;
-        cell_without_paragraph_counterexample <w:tc/> raises IndexError.
-      The cause is always the same: after the last paragraph of the cell the
+   HISTORY (findings made on the unrepaired method)
+   1. "Some w:p below the w:tc" (local_ok2_weak) did not suffice for the walk
+      to succeed:
+        cx_nested   <w:tc><w:customXml><w:customXml><w:p/></w:customXml>
+          <w:tbl>...</w:tbl></w:customXml></w:tc> — a structure the XSD
+          allows — raised IndexError in close_table_cell for both settings of
+          duplicate_merged_cells;
+        cx_dup      a gridSpan=2 cell holding <w:customXml><w:p/><w:sdt>..
+          <w:p/>..</w:sdt></w:customXml> raised IndexError when
+          duplicate_merged_cells = True only;
+        <w:tc/>     raised IndexError.
+      The cause was always the same: after the last paragraph of the cell the
       caret is raised (an element of depth 1 or 2) and dropped again (closing
       an element of depth 2 or 3), which appends an EMPTY table or row, and
-      close_table_cell reads root[-1][-1] resp. this_tr[-1].
-      Hypothesis used instead (decidable, [tc_ok]): the last paragraph-bearing
+      close_table_cell read root[-1][-1] resp. this_tr[-1].
+      The hypothesis used then (decidable, [tc_ok]): the last paragraph-bearing
       child of the cell "ends with paragraph content" — it is a w:p, or a
       chain of wrappers (w:sdt/w:sdtContent/w:customXml ..., children walked,
       no w:tc) down to a w:p where no wrapper sits deeper than its last
       paragraph-bearing child ([ends_full], needed when the cell is
       duplicated) resp. no wrapper of depth 2 does ([ends_row], otherwise).
-      It is sufficient, not necessary; the exact condition on the STATE is
-      close_table_cell_ok_iff.
+      After the repair none of this is needed (PART 6b).
    2. The proposed strengthening of the invariant ("every table has a row,
       every row a cell") is not an invariant, not even of final trees of
       ordinary documents (J2_naive_counterexample: a content control holding a
-      paragraph and a table).  No strengthening of the state invariant is
-      needed: J2 is the J of TotalFacts, and the non-emptiness that
-      close_table_cell needs is re-established inside each cell. *)
+      paragraph and a table) — still true.  No strengthening of the state
+      invariant is needed: J2 is the J of TotalFacts. *)
 From Coq Require Import List NArith ZArith Bool Arith Lia.
 From D2P Require Import Str Err Xml TableTypes Tables Fmt NumFmt Bullets Merge Collector Walk
      Iter Output.
@@ -129,9 +146,10 @@ Definition cell_ok (ks : list anode) : bool :=
 Definition row_ok (ks : list anode) : bool :=
   match last_pc ks with Some k => ends_row k | None => false end.
 
-(* what close_table_cell evaluates locally, and the structural condition:
-   [cell_ok] when the cell will be duplicated (duplicate_merged_cells and a
-   gridSpan above 1), [row_ok] otherwise *)
+(* what close_table_cell evaluates locally, and the structural condition that
+   the unrepaired method needed: [cell_ok] when the cell will be duplicated
+   (duplicate_merged_cells and a gridSpan above 1), [row_ok] otherwise.
+   (Since the repair the structural clause is superfluous: tc_ok3, PART 6b.) *)
 Definition tc_ok (v : env) (e : einfo) (ks : list anode) : bool :=
   match gather_Pr e ks with
   | Ok pr =>
@@ -156,7 +174,8 @@ Fixpoint all_local_ok2 (v : env) (t : anode) : bool :=
   match t with AX _ => true | AE e ks => local_ok2 v t && forallb (all_local_ok2 v) ks end.
 
 (* the variant with the structural condition that was expected to suffice:
-   "some paragraph below the cell" (it does not, see PART 7) *)
+   "some paragraph below the cell" (before the repair of _close_table_cell it
+   did not, see PART 7; now even less is enough: local_ok3, PART 6b) *)
 Definition local_ok2_weak (v : env) (t : anode) : bool :=
   match t with
   | AX _ => true
@@ -174,13 +193,14 @@ Fixpoint all_local_ok2_weak (v : env) (t : anode) : bool :=
 
 (* The invariant.  The strengthening that was proposed ("every table of the
    tree has a row, every row a cell") is NOT an invariant of the walk, not
-   even of its final states (J2_naive_counterexample in PART 7); what
-   close_table_cell needs of the state is [spine_ok 3 (c_tree s)] — the root
-   and its newest table are non-empty — and, when a cell is to be duplicated,
-   [spine_ok 4 (c_tree s)] — the newest row is non-empty too.  Neither is
-   invariant (the caret dropping from depth 1 or 2 appends an empty table or
-   row); [row_ok] / [cell_ok] re-establish them locally, at the end of each cell, so the
-   invariant of the walk itself is the J of TotalFacts. *)
+   even of its final states (J2_naive_counterexample in PART 7); what the
+   unrepaired close_table_cell needed of the state was [spine_ok 3 (c_tree s)]
+   — the root and its newest table are non-empty — and, when a cell is to be
+   duplicated, [spine_ok 4 (c_tree s)] — the newest row is non-empty too.
+   Neither is invariant (the caret dropping from depth 1 or 2 appends an empty
+   table or row); [row_ok] / [cell_ok] re-establish them locally, at the end
+   of each cell.  The repaired method needs neither.  The invariant of the
+   walk itself is the J of TotalFacts. *)
 Definition J2 (s : cst) : Prop := J s.
 
 Definition rows_nonempty (n : node) : Prop :=
@@ -413,7 +433,7 @@ Lemma hstep_shape v cs cs' :
   forallb (shapeb 3) cs = true -> hstep v cs = Ok cs' -> forallb (shapeb 3) cs' = true.
 Proof.
   intros Hc Hf. unfold hstep in Hf. destruct (env_dup v).
-  - destruct cs as [|c r]; [discriminate Hf|]. injection Hf as <-.
+  - destruct cs as [|c r]; [injection Hf as <-; reflexivity|]. injection Hf as <-.
     cbn [forallb] in Hc |- *. rewrite copy_node_shape.
     apply andb_true_iff in Hc. destruct Hc as [Hc1 Hc2]. rewrite Hc1, Hc2. reflexivity.
   - injection Hf as <-. cbn [forallb]. rewrite Hc. reflexivity.
@@ -423,35 +443,37 @@ Lemma hstep_sty v cs cs' :
   Forall node_sty cs -> hstep v cs = Ok cs' -> Forall node_sty cs'.
 Proof.
   intros Hc Hf. unfold hstep in Hf. destruct (env_dup v).
-  - destruct cs as [|c r]; [discriminate Hf|]. injection Hf as <-.
+  - destruct cs as [|c r];
+      [injection Hf as <-; constructor; [exact node_sty_blank|exact Hc]|]. injection Hf as <-.
     inversion Hc; subst. constructor; [apply node_sty_copy; assumption|exact Hc].
   - injection Hf as <-. constructor; [exact node_sty_blank|exact Hc].
 Qed.
 
 Lemma hstep_nce v cs : nce (hstep v cs).
-Proof. unfold hstep. destruct (env_dup v); [|exact I]. destruct cs; simpl; [discriminate|exact I]. Qed.
+Proof. unfold hstep. destruct (env_dup v); [|exact I]. destruct cs; exact I. Qed.
+
+(* since the repair of _close_table_cell (an empty row gets a blank cell
+   instead of this_tr[-1] raising IndexError) one step of the horizontal loop
+   cannot fail *)
+Lemma hstep_total v cs : exists cs', hstep v cs = Ok cs'.
+Proof. unfold hstep. destruct (env_dup v); [destruct cs|]; eexists; reflexivity. Qed.
 
 Lemma hloop_total v ti ri : forall n s cells,
   J s -> at_row (c_tree s) ti ri cells ->
-  (env_dup v = true -> n <> 0 -> cells <> []) ->
   exists s', hloop v ti ri n s = Ok s' /\ J s'.
 Proof.
-  induction n as [|k IH]; intros s cells HJ Hat Hne.
+  induction n as [|k IH]; intros s cells HJ Hat.
   - exists s. split; [reflexivity|exact HJ].
   - rewrite hloop_S.
     destruct (set_caret_J 3 None s) as (sa & E & Ja & Da & _); [lia|exact HJ|].
     rewrite E. cbn [bind].
     assert (Ha : at_row (c_tree sa) ti ri cells).
     { eapply at_row_ext; [eapply set_caret3_ext; [exact (proj1 HJ)|exact E]|exact Hat]. }
-    assert (Hs : exists cells', hstep v cells = Ok cells' /\ cells' <> []).
-    { unfold hstep. destruct (env_dup v) eqn:Ed.
-      - destruct cells as [|c r]; [exfalso; apply Hne; auto|]. eexists. split; [reflexivity|discriminate].
-      - eexists. split; [reflexivity|discriminate]. }
-    destruct Hs as (cells' & Es & Hne').
+    destruct (hstep_total v cells) as (cells' & Es).
     destruct (at_row_upd _ _ _ _ (hstep v) cells' Ha Es) as (root' & Eu & Hat').
     rewrite Eu. cbn [bind].
     destruct Ja as [Ia Sa]. pose proof Sa as (STa & _).
-    apply (IH (set_tree root' sa) cells'); [|exact Hat'|intros _ _; exact Hne'].
+    apply (IH (set_tree root' sa) cells'); [|exact Hat'].
     apply set_tree_J; [| |split; assumption].
     + assert (G : good (fun root' => Inv (set_tree root' sa)) (upd_row (c_tree sa) ti ri (hstep v))).
       { apply upd_row_good; [exact Ia|exact Da|apply hstep_nce|apply hstep_shape]. }
@@ -459,9 +481,10 @@ Proof.
     + eapply upd_row_sty; [exact STa|apply hstep_sty|exact Eu].
 Qed.
 
-(* ---- close_table_cell: under J it cannot fail other than through the
-   local conditions (gather_Pr, the gridSpan value) when the newest table has
-   a row and — if a cell is to be duplicated — the newest row has a cell ---- *)
+(* ---- close_table_cell: since the repair of _close_table_cell (early return
+   when the tree is empty or its newest table has no row; a blank cell when
+   the row to duplicate into is empty) it cannot fail, under J, other than
+   through the local conditions (gather_Pr, the gridSpan value) ---- *)
 Lemma spine3_shape root : spine_ok 3 root ->
   exists cells prev_rows old, root = NL (NL cells :: prev_rows) :: old.
 Proof.
@@ -474,88 +497,95 @@ Proof.
   destruct root as [|[[|[[|[l|p] cells]|p] pv]|p] old]; cbn; try contradiction. eauto.
 Qed.
 
-Lemma close_table_cell_total v e ks s pr g :
+(* a well-shaped tree is empty, or its newest table is empty, or it has a
+   newest row (which is a list) *)
+Lemma tree_ok_cases root : tree_ok root ->
+  root = [] \/ (exists old, root = NL [] :: old) \/ spine_ok 3 root.
+Proof.
+  unfold tree_ok. destruct root as [|[[|[cells|p] pv]|p] old]; cbn; intro T; auto.
+  - right; left. eauto.
+  - discriminate T.
+  - discriminate T.
+Qed.
+
+(* the part after the two early returns *)
+Lemma close_table_cell_total_row v e ks s pr g :
   J s -> gather_Pr e ks = Ok pr -> span_of pr = Ok g ->
   spine_ok 3 (c_tree s) ->
-  (env_dup v = true -> (1 < g)%Z -> spine_ok 4 (c_tree s)) ->
   exists s', close_table_cell v e ks s = Ok s' /\ J s'.
 Proof.
-  intros HJ Hpr Hg H3 H4.
+  intros HJ Hpr Hg H3.
   destruct (spine3_shape _ H3) as (cells & pv & old & Et).
   rewrite close_table_cell_eq, Hpr. cbn [bind]. rewrite Et. cbn [as_list bind]. cbv zeta.
   replace (length (NL (NL cells :: pv) :: old) - 1) with (length old) by (cbn [length]; lia).
   replace (length (NL cells :: pv) - 1) with (length pv) by (cbn [length]; lia).
   assert (Hat : at_row (c_tree s) (length old) (length pv) cells).
   { exists [], [], pv, old. rewrite Et. auto. }
-  assert (Hne : env_dup v = true -> Z.to_nat (g - 1) <> 0 -> cells <> []).
-  { intros Hd Hn. assert (Hg1 : (1 < g)%Z) by lia.
-    destruct (spine4_shape _ (H4 Hd Hg1)) as (l & cs & pv' & old' & Et').
-    rewrite Et in Et'. injection Et' as -> _ _. discriminate. }
   assert (H1 : exists s1 cells1,
              (if (env_dup v && is_continuation pr && Nat.ltb 1 (length (NL cells :: pv)))%bool
               then vmerge (length old) (length pv) s else Ok s) = Ok s1
-             /\ J s1 /\ at_row (c_tree s1) (length old) (length pv) cells1
-             /\ (cells <> [] -> cells1 <> [])).
+             /\ J s1 /\ at_row (c_tree s1) (length old) (length pv) cells1).
   { destruct (env_dup v && is_continuation pr && Nat.ltb 1 (length (NL cells :: pv)))%bool eqn:C.
     - apply andb_true_iff in C. destruct C as [_ C]. apply Nat.ltb_lt in C. cbn [length] in C.
-      destruct (vmerge_total (length old) (length pv) s cells HJ Hat) as (s1 & c1 & A & B & C1 & D & _);
+      destruct (vmerge_total (length old) (length pv) s cells HJ Hat) as (s1 & c1 & A & B & C1 & _);
         [lia|]. exists s1, c1. auto.
     - exists s, cells. auto. }
-  destruct H1 as (s1 & cells1 & E1 & J1 & Hat1 & Hne1). rewrite E1. cbn [bind].
+  destruct H1 as (s1 & cells1 & E1 & J1 & Hat1). rewrite E1. cbn [bind].
   rewrite Hg. cbn [bind].
   apply (hloop_total v (length old) (length pv) _ s1 cells1 J1 Hat1).
-  intros Hd Hn. apply Hne1, Hne; assumption.
 Qed.
 
-(* ... and these conditions are exact: without them it raises IndexError *)
-Lemma hloop_empty_err v ti ri n s :
-  J s -> at_row (c_tree s) ti ri [] -> env_dup v = true -> n <> 0 ->
-  hloop v ti ri n s = Err IndexError.
-Proof.
-  intros HJ Hat Hd Hn. destruct n as [|k]; [congruence|]. rewrite hloop_S.
-  destruct (set_caret_J 3 None s) as (sa & E & Ja & Da & _); [lia|exact HJ|].
-  rewrite E. cbn [bind].
-  assert (Ha : at_row (c_tree sa) ti ri []).
-  { eapply at_row_ext; [eapply set_caret3_ext; [exact (proj1 HJ)|exact E]|exact Hat]. }
-  rewrite (at_row_upd_err _ _ _ _ (hstep v) IndexError Ha); [reflexivity|].
-  unfold hstep. rewrite Hd. reflexivity.
-Qed.
-
-Theorem close_table_cell_ok_iff v e ks s pr g :
+(* THE REPAIRED METHOD IS TOTAL: under the invariant J (shape: Inv; styles)
+   and the two local conditions — the cell's properties gather, its gridSpan
+   value parses — closing a table cell ALWAYS succeeds, whatever the tree
+   looks like, and preserves J.  (Before the repair:
+   close_table_cell_ok_iff, "iff spine_ok 3 and, when a cell is duplicated,
+   spine_ok 4; otherwise IndexError".) *)
+Theorem close_table_cell_total_now v e ks s pr g :
   J s -> gather_Pr e ks = Ok pr -> span_of pr = Ok g ->
-  ((exists s', close_table_cell v e ks s = Ok s')
-   <-> spine_ok 3 (c_tree s) /\ (env_dup v = true -> (1 < g)%Z -> spine_ok 4 (c_tree s))).
+  exists s', close_table_cell v e ks s = Ok s' /\ J s'.
 Proof.
-  intros HJ Hpr Hg. split.
-  2:{ intros [H3 H4]. destruct (close_table_cell_total v e ks s pr g HJ Hpr Hg H3 H4) as (s' & E & _).
-      eauto. }
-  intros [s' H]. rewrite close_table_cell_eq, Hpr in H. cbn [bind] in H.
-  destruct (c_tree s) as [|[[|[cells|p] pv]|p] old] eqn:Et;
-    try (cbn [as_list bind] in H; discriminate H).
-  split; [exact I|]. intros Hd Hg1.
-  destruct cells as [|[l|p] cs]; [| exact I |].
-  - (* the newest row is empty *)
-    exfalso. cbn [as_list bind] in H. cbv zeta in H.
-    replace (length (NL (NL [] :: pv) :: old) - 1) with (length old) in H by (cbn [length]; lia).
-    replace (length (NL [] :: pv) - 1) with (length pv) in H by (cbn [length]; lia).
-    assert (Hat : at_row (c_tree s) (length old) (length pv) []).
-    { exists [], [], pv, old. rewrite Et. auto. }
-    assert (H1 : exists s1,
-               (if (env_dup v && is_continuation pr && Nat.ltb 1 (length (NL [] :: pv)))%bool
-                then vmerge (length old) (length pv) s else Ok s) = Ok s1
-               /\ J s1 /\ at_row (c_tree s1) (length old) (length pv) []).
-    { destruct (env_dup v && is_continuation pr && Nat.ltb 1 (length (NL [] :: pv)))%bool eqn:C.
-      - apply andb_true_iff in C. destruct C as [_ C]. apply Nat.ltb_lt in C. cbn [length] in C.
-        destruct (vmerge_total (length old) (length pv) s [] HJ Hat) as (s1 & c1 & A & B & C1 & _ & D);
-          [lia|]. rewrite (D eq_refl) in C1. exists s1. auto.
-      - exists s. auto. }
-    destruct H1 as (s1 & E1 & J1 & Hat1). rewrite E1 in H. cbn [bind] in H.
-    rewrite Hg in H. cbn [bind] in H.
-    rewrite (hloop_empty_err v _ _ _ s1 J1 Hat1 Hd) in H; [discriminate H|lia].
-  - (* a paragraph at cell level: excluded by the shape invariant *)
-    exfalso. destruct HJ as [(T & _) _]. rewrite Et in T. unfold tree_ok in T.
-    cbn in T. discriminate T.
+  intros HJ Hpr Hg.
+  destruct (tree_ok_cases _ (proj1 (proj1 HJ))) as [Et|[(old & Et)|H3]].
+  - exists s. split; [|exact HJ]. rewrite close_table_cell_eq, Hpr. cbn [bind]. rewrite Et.
+    reflexivity.
+  - exists s. split; [|exact HJ]. rewrite close_table_cell_eq, Hpr. cbn [bind]. rewrite Et.
+    reflexivity.
+  - exact (close_table_cell_total_row v e ks s pr g HJ Hpr Hg H3).
 Qed.
+
+(* the exact condition, for the record: the gridSpan value is only looked at
+   when the newest table has a row *)
+Theorem close_table_cell_ok_iff_now v e ks s :
+  J s ->
+  ((exists s', close_table_cell v e ks s = Ok s')
+   <-> exists pr, gather_Pr e ks = Ok pr
+                  /\ (spine_ok 3 (c_tree s) -> exists g, span_of pr = Ok g)).
+Proof.
+  intro HJ. split.
+  - intros [s' H]. rewrite close_table_cell_eq in H.
+    destruct (gather_Pr e ks) as [pr|x] eqn:Epr; [|discriminate H]. cbn [bind] in H.
+    exists pr. split; [reflexivity|]. intro H3.
+    destruct (spine3_shape _ H3) as (cells & pv & old & Et).
+    rewrite Et in H. cbn [as_list bind] in H. cbv zeta in H.
+    match type of H with bind ?r _ = _ => destruct r as [s1|x]; [|discriminate H] end.
+    cbn [bind] in H. destruct (span_of pr) as [g|x]; [eauto|discriminate H].
+  - intros (pr & Hpr & Hg).
+    destruct (tree_ok_cases _ (proj1 (proj1 HJ))) as [Et|[(old & Et)|H3]].
+    + exists s. rewrite close_table_cell_eq, Hpr. cbn [bind]. rewrite Et. reflexivity.
+    + exists s. rewrite close_table_cell_eq, Hpr. cbn [bind]. rewrite Et. reflexivity.
+    + destruct (Hg H3) as [g Eg].
+      destruct (close_table_cell_total_row v e ks s pr g HJ Hpr Eg H3) as (s' & E & _). eauto.
+Qed.
+
+(* the statement used by walk_total_tables (its two structural hypotheses
+   are no longer needed) *)
+Lemma close_table_cell_total v e ks s pr g :
+  J s -> gather_Pr e ks = Ok pr -> span_of pr = Ok g ->
+  spine_ok 3 (c_tree s) ->
+  (env_dup v = true -> (1 < g)%Z -> spine_ok 4 (c_tree s)) ->
+  exists s', close_table_cell v e ks s = Ok s' /\ J s'.
+Proof. intros HJ Hpr Hg _ _. exact (close_table_cell_total_now v e ks s pr g HJ Hpr Hg). Qed.
 
 (* ================================================================== *)
 (* PART 2 — comment range markers                                       *)
@@ -1146,6 +1176,200 @@ Proof.
 Qed.
 
 (* ================================================================== *)
+(* PART 6b — after the repair: no structural hypothesis at all          *)
+(* ================================================================== *)
+(* Since _close_table_cell was repaired, closing a cell cannot fail for
+   structural reasons (close_table_cell_total_now), so the condition on what
+   a w:tc CONTAINS ([cell_ok] / [row_ok]) can be dropped: only the local
+   evaluations remain.  For a w:tc: its properties gather and its gridSpan
+   value parses; for a comment range marker: the id attribute is present;
+   for every other element: local_ok' of TotalFacts. *)
+Definition tc_ok3 (e : einfo) (ks : list anode) : bool :=
+  match gather_Pr e ks with Ok pr => is_ok (span_of pr) | Err _ => false end.
+
+Definition local_ok3 (v : env) (t : anode) : bool :=
+  match t with
+  | AX _ => true
+  | AE e ks =>
+      if str_eqb (e_ptag e) tag_TABLE_CELL then tc_ok3 e ks
+      else if (str_eqb (e_ptag e) tag_COMMENT_RANGE_START
+               || str_eqb (e_ptag e) tag_COMMENT_RANGE_END)%bool then
+        is_ok (attr_w_req e s_id)
+      else local_ok' v t
+  end.
+Fixpoint all_local_ok3 (v : env) (t : anode) : bool :=
+  match t with AX _ => true | AE e ks => local_ok3 v t && forallb (all_local_ok3 v) ks end.
+
+Lemma open_tag_J3 v path e ks body s :
+  local_ok3 v (AE e ks) = true -> J s ->
+  exists s' b, open_tag v path (AE e ks) e ks body s = Ok (s', b) /\ J s'.
+Proof.
+  intros L HJ. unfold local_ok3 in L.
+  destruct (str_eqb (e_ptag e) tag_TABLE_CELL) eqn:Ttc.
+  { rewrite (open_tag_tc _ _ _ _ _ _ _ Ttc). exists s, true. auto. }
+  destruct (str_eqb (e_ptag e) tag_COMMENT_RANGE_START) eqn:Ts.
+  { cbn [orb] in L. rewrite (open_tag_crs _ _ _ _ _ _ _ Ts).
+    destruct (attr_w_req e s_id) as [id|]; [|discriminate L]. cbn [bind].
+    destruct (start_comment_range_J v id s HJ) as (s' & E & J'). rewrite E. cbn [bind]. eauto. }
+  destruct (str_eqb (e_ptag e) tag_COMMENT_RANGE_END) eqn:Te.
+  { cbn [orb] in L. rewrite (open_tag_cre _ _ _ _ _ _ _ Te).
+    destruct (attr_w_req e s_id) as [id|]; [|discriminate L]. cbn [bind].
+    destruct (end_comment_range_J v id s HJ) as (s' & E & J'). rewrite E. cbn [bind]. eauto. }
+  cbn [orb] in L. apply TotalFacts.open_tag_J; assumption.
+Qed.
+
+Lemma close_tag_J3 v e ks s :
+  local_ok3 v (AE e ks) = true -> J s -> exists s', close_tag v e ks s = Ok s' /\ J s'.
+Proof.
+  intros L HJ. unfold local_ok3 in L.
+  destruct (str_eqb (e_ptag e) tag_TABLE_CELL) eqn:Ttc.
+  { rewrite (close_tag_tc _ _ _ _ Ttc). unfold tc_ok3 in L.
+    destruct (gather_Pr e ks) as [pr|] eqn:Epr; [|discriminate L].
+    destruct (span_of pr) as [g|] eqn:Eg; [|discriminate L].
+    exact (close_table_cell_total_now v e ks s pr g HJ Epr Eg). }
+  destruct (str_eqb (e_ptag e) tag_COMMENT_RANGE_START) eqn:Ts.
+  { rewrite (close_tag_crs _ _ _ _ Ts). exists s. auto. }
+  destruct (str_eqb (e_ptag e) tag_COMMENT_RANGE_END) eqn:Te.
+  { rewrite (close_tag_cre _ _ _ _ Te). exists s. auto. }
+  cbn [orb] in L. apply TotalFacts.close_tag_J; assumption.
+Qed.
+
+Definition walk_A_at (v : env) (t : anode) : Prop :=
+  forall path s, all_local_ok3 v t = true -> J s -> exists s', walk v path t s = Ok s' /\ J s'.
+
+Lemma below_loop_total3 v path ks :
+  Forall (walk_A_at v) ks -> forallb (all_local_ok3 v) ks = true ->
+  forall i, exists body, below_loop v path ks i = Ok body.
+Proof.
+  induction 1 as [|k r Hk Hr IH]; intros Hl i; cbn [below_loop].
+  - eexists; reflexivity.
+  - cbn [forallb] in Hl. apply andb_true_iff in Hl. destruct Hl as [Hlk Hlr].
+    destruct (Hk (i :: path) init_cst Hlk init_J) as (sk & E & Jk). rewrite E. cbn [bind].
+    destruct (finish_J v sk Jk) as (sk' & E' & [Ik' (Tk' & _)]). rewrite E'. cbn [bind].
+    destruct (tree_par_toks_total (c_tree sk') (proj1 Ik') Tk') as [ps Ep]. rewrite Ep. cbn [bind].
+    destruct (IH Hlr (S i)) as [rest Er]. rewrite Er. cbn [bind]. eexists; reflexivity.
+Qed.
+
+Lemma kids_loop_total3 v path ks :
+  Forall (walk_A_at v) ks -> forallb (all_local_ok3 v) ks = true ->
+  forall i s, J s -> exists s', kids_loop v path ks i s = Ok s' /\ J s'.
+Proof.
+  induction 1 as [|k r Hk Hr IH]; intros Hl i s HJ; cbn [kids_loop].
+  - exists s. split; [reflexivity|exact HJ].
+  - cbn [forallb] in Hl. apply andb_true_iff in Hl. destruct Hl as [Hlk Hlr].
+    destruct (Hk (i :: path) s Hlk HJ) as (s1 & E & J1). rewrite E. cbn [bind].
+    exact (IH Hlr (S i) s1 J1).
+Qed.
+
+Lemma walk_A v : forall t, walk_A_at v t.
+Proof.
+  apply ShapeFacts.anode_ind'.
+  - intros tl path s _ HJ. exists s. split; [reflexivity|exact HJ].
+  - intros e ks HF path s Hl HJ. cbn [all_local_ok3] in Hl.
+    apply andb_true_iff in Hl. destruct Hl as [Hloc Hks].
+    rewrite walk_AE. cbv zeta.
+    destruct (set_caret_opt_J2 (elem_depth (AE e ks)) (Some (e_local e)) s
+                (elem_depth_range _) HJ) as (s1 & E1 & J1 & _).
+    rewrite E1. cbn [bind].
+    assert (Hb : exists body, (if str_eqb (e_ptag e) tag_HYPERLINK
+                               then below_loop v path ks 0 else Ok []) = Ok body).
+    { destruct (str_eqb (e_ptag e) tag_HYPERLINK); [|eexists; reflexivity].
+      apply below_loop_total3; assumption. }
+    destruct Hb as [body Eb]. rewrite Eb. cbn [bind].
+    destruct (open_tag_J3 v path e ks body s1 Hloc J1) as (s2 & rec & E2 & J2').
+    rewrite E2. cbn [bind].
+    assert (H3 : exists s3, (if rec then kids_loop v path ks 0 s2 else Ok s2) = Ok s3 /\ J s3).
+    { destruct rec; [|exists s2; split; [reflexivity|exact J2']].
+      exact (kids_loop_total3 v path ks HF Hks 0 s2 J2'). }
+    destruct H3 as (s3 & E3 & J3). rewrite E3. cbn [bind].
+    destruct (close_tag_J3 v e ks s3 Hloc J3) as (s4 & E4 & J4). rewrite E4. cbn [bind].
+    destruct (set_caret_opt_J2 (elem_depth (AE e ks)) None s4 (elem_depth_range _) J4)
+      as (s5 & E5 & J5 & _).
+    exists s5. split; [exact E5|exact J5].
+Qed.
+
+(* TOTALITY, every tree: if the local evaluation of every element succeeds
+   the whole walk succeeds, whatever the cells contain and however tables,
+   wrappers and paragraphs are nested *)
+Theorem walk_total_all : forall v t path s, all_local_ok3 v t = true -> J s ->
+  exists s', walk v path t s = Ok s' /\ J s'.
+Proof. intros v t path s Hl HJ. exact (walk_A v t path s Hl HJ). Qed.
+
+Theorem collect_total_all_strong : forall v path t, all_local_ok3 v t = true ->
+  exists s, collect_from v path t = Ok s /\ J s.
+Proof.
+  intros v path t Hl. unfold collect_from.
+  destruct (walk_total_all v t path init_cst Hl init_J) as (s1 & E & J1). rewrite E. cbn [bind].
+  apply finish_J. exact J1.
+Qed.
+
+Theorem collect_total_all : forall v path t, all_local_ok3 v t = true ->
+  exists s, collect_from v path t = Ok s.
+Proof. intros v path t Hl. destruct (collect_total_all_strong v path t Hl) as (s & E & _). eauto. Qed.
+
+Theorem rendering_total_all : forall v path t, all_local_ok3 v t = true ->
+  exists s ps rs r,
+    collect_from v path t = Ok s
+    /\ pars_at 4 (c_tree s) = Ok ps
+    /\ mapM (par_run_strings (html_on v)) ps = Ok rs
+    /\ get_par_strings (html_on v) (pars_view s) = Ok r.
+Proof.
+  intros v path t Hl.
+  destruct (collect_total_all_strong v path t Hl) as (s & E & [I0 (T0 & _)]).
+  destruct (pars_at_total 4 1 (c_tree s) eq_refl) as [ps Eps]; [lia|exact (proj1 I0)|].
+  destruct (ViewFacts.mapM_total (par_run_strings (html_on v)) ps) as [rs Ers].
+  { eapply Forall_impl; [|exact (pars_at_sty _ _ _ Eps T0)]. intro p. apply par_run_strings_total. }
+  destruct (gps_total (html_on v) (pars_view s)) as [r Er].
+  { apply pars_view_deep. apply unrev_shape. exact (proj1 I0). }
+  { intros addr p Hp. apply par_run_strings_total. exact (pars_view_leaves_sty s T0 addr p Hp). }
+  exists s, ps, rs, r. auto.
+Qed.
+
+(* the earlier hypotheses are special cases: all_local_ok2 (with the
+   structural clause tc_ok), and all_local_ok2_weak ("some paragraph below
+   the cell", which did NOT suffice before the repair) *)
+Lemma local_ok2_local_ok3 v t : local_ok2 v t = true -> local_ok3 v t = true.
+Proof.
+  destruct t as [e ks|tl]; [|reflexivity]. unfold local_ok2, local_ok3, tc_ok, tc_ok3.
+  destruct (str_eqb (e_ptag e) tag_TABLE_CELL); [|intro H; exact H].
+  destruct (gather_Pr e ks) as [pr|]; [|intro H; exact H].
+  destruct (span_of pr) as [g|]; [reflexivity|intro H; exact H].
+Qed.
+
+Lemma all_local_ok2_all_local_ok3 v : forall t, all_local_ok2 v t = true -> all_local_ok3 v t = true.
+Proof.
+  apply (ShapeFacts.anode_ind' (fun t => all_local_ok2 v t = true -> all_local_ok3 v t = true));
+    [intros tl _; reflexivity|].
+  intros e ks HF H. cbn [all_local_ok2 all_local_ok3] in H |- *.
+  apply andb_true_iff in H. destruct H as [Hl Hk].
+  rewrite (local_ok2_local_ok3 _ _ Hl). cbn [andb].
+  apply forallb_forall. intros k Ik. apply (proj1 (Forall_forall _ _) HF k Ik).
+  exact (proj1 (forallb_forall _ _) Hk k Ik).
+Qed.
+
+Lemma local_ok2_weak_local_ok3 v t : local_ok2_weak v t = true -> local_ok3 v t = true.
+Proof.
+  destruct t as [e ks|tl]; [|reflexivity]. unfold local_ok2_weak, local_ok3, tc_ok3.
+  destruct (str_eqb (e_ptag e) tag_TABLE_CELL); [|intro H; exact H].
+  intro H. apply andb_true_iff in H. exact (proj1 H).
+Qed.
+
+Lemma all_local_ok2_weak_all_local_ok3 v :
+  forall t, all_local_ok2_weak v t = true -> all_local_ok3 v t = true.
+Proof.
+  apply (ShapeFacts.anode_ind' (fun t => all_local_ok2_weak v t = true -> all_local_ok3 v t = true));
+    [intros tl _; reflexivity|].
+  intros e ks HF H. cbn [all_local_ok2_weak all_local_ok3] in H |- *.
+  apply andb_true_iff in H. destruct H as [Hl Hk].
+  rewrite (local_ok2_weak_local_ok3 _ _ Hl). cbn [andb].
+  apply forallb_forall. intros k Ik. apply (proj1 (Forall_forall _ _) HF k Ik).
+  exact (proj1 (forallb_forall _ _) Hk k Ik).
+Qed.
+
+Corollary all_local_ok'_all_local_ok3 v : forall t, all_local_ok' v t = true -> all_local_ok3 v t = true.
+Proof. intros t H. apply all_local_ok2_all_local_ok3, all_local_ok'_all_local_ok2, H. Qed.
+
+(* ================================================================== *)
 (* PART 7 — examples and counterexamples                                *)
 (* ================================================================== *)
 Definition tt_el (tag loc : str) (attrs : list (aname * str)) (tx : option str)
@@ -1256,52 +1480,91 @@ Proof.
   split; vm_compute; reflexivity.
 Qed.
 
-(* ---- FINDING 1: "some paragraph below the cell" does not suffice ---- *)
+(* ---- FINDING 1 (now repaired in the code): before the repair of
+   _close_table_cell "some paragraph below the cell" did not suffice; the
+   three trees below made close_table_cell raise IndexError.  They are kept,
+   with the statement that holds now: they are extracted. ---- *)
 (* (a) a structure the XSD allows: a cell whose only block is a
    w:customXml that holds a wrapped paragraph and then a nested table.  The
    nested table raises the caret to depth 1; closing the customXml (depth 2)
-   appends an EMPTY table, and closing the cell reads root[-1][-1]:
-   IndexError, whatever duplicate_merged_cells is. *)
+   appends an EMPTY table, and closing the cell used to read root[-1][-1]
+   (IndexError, whatever duplicate_merged_cells is); now it returns at once. *)
 Definition cx_nested : anode :=
   tt_tbl [tt_tr [tt_tc [tt_customXml [tt_customXml [tt_par [65%N]];
                                       tt_tbl [tt_tr [tt_tc [tt_par [66%N]]]]]]]].
 
-Lemma walk_total_tables_counterexample :
+Lemma walk_total_tables_repaired :
   exists t, forall html dup,
     all_local_ok2_weak (tt_env html dup) t = true
-    /\ collect_from (tt_env html dup) [] t = Err IndexError.
-Proof. exists cx_nested. intros [|] [|]; split; vm_compute; reflexivity. Qed.
+    /\ exists s, collect_from (tt_env html dup) [] t = Ok s.
+Proof.
+  exists cx_nested. intros html dup. split; [destruct html, dup; vm_compute; reflexivity|].
+  apply collect_total_all, all_local_ok2_weak_all_local_ok3.
+  destruct html, dup; vm_compute; reflexivity.
+Qed.
 
 (* (b) a cell with gridSpan = 2 whose only block is a w:customXml holding a
    paragraph and then a content control: the content control (depth 2) raises
    the caret, closing the customXml (depth 3) appends an EMPTY row, and with
    duplicate_merged_cells = True the cell to duplicate, this_tr[-1], does
-   not exist: IndexError.  (With False the walk succeeds.) *)
+   not exist: it used to be an IndexError, now a blank cell is appended, as
+   with duplicate_merged_cells = False. *)
 Definition cx_dup : anode :=
   tt_tbl [tt_tr [tt_tc [tt_tcPr [tt_gridSpan2];
                         tt_customXml [tt_par [65%N];
                                       tt_sdt [tt_sdtContent [tt_par [66%N]]]]]]].
 
-Lemma walk_total_tables_dup_counterexample :
+Lemma walk_total_tables_dup_repaired :
   exists t, forall html,
     all_local_ok2_weak (tt_env html true) t = true
-    /\ collect_from (tt_env html true) [] t = Err IndexError
+    /\ (exists s, collect_from (tt_env html true) [] t = Ok s)
     /\ all_local_ok2_weak (tt_env html false) t = true
     /\ exists s, collect_from (tt_env html false) [] t = Ok s.
 Proof.
   exists cx_dup. intros [|]; (split; [vm_compute; reflexivity|]);
-    (split; [vm_compute; reflexivity|]); (split; [vm_compute; reflexivity|]);
+    (split; [eexists; vm_compute; reflexivity|]); (split; [vm_compute; reflexivity|]);
     eexists; vm_compute; reflexivity.
 Qed.
 
-(* (c) and a cell with no paragraph at all fails on the empty root *)
-Lemma cell_without_paragraph_counterexample :
-  forall html dup, collect_from (tt_env html dup) [] (tt_tbl [tt_tr [tt_tc []]]) = Err IndexError.
-Proof. intros [|] [|]; vm_compute; reflexivity. Qed.
+(* what comes out of (b): both settings give the same shape — one table, three rows of
+   one cell; the row that the dropped caret had left empty holds the blank cell (one
+   empty paragraph that belongs to no source element) *)
+Example cx_dup_result : forall dup,
+  exists s, collect_from (tt_env false dup) [] cx_dup = Ok s /\
+    tt_view (unrev_list (c_tree s)) =
+      [ [ [ [ (Some [0;1;0;0], false) ] ];
+          [ [ (Some [0;0;1;1;0;0], false) ] ];
+          [ [ (None, false) ] ] ] ].
+Proof.
+  intros [|]; (eexists; split; [vm_compute; reflexivity|vm_compute; reflexivity]).
+Qed.
 
-(* they are excluded by [row_ok] and [cell_ok]; (b) only when its cell is to
-   be duplicated — with duplicate_merged_cells = False it is covered by the
-   theorem *)
+(* (c) and a cell with no paragraph at all used to fail on the empty root; now
+   nothing is extracted from it *)
+Lemma cell_without_paragraph_repaired :
+  forall html dup, exists s, collect_from (tt_env html dup) [] (tt_tbl [tt_tr [tt_tc []]]) = Ok s
+                             /\ c_tree s = [].
+Proof. intros [|] [|]; eexists; split; vm_compute; reflexivity. Qed.
+
+(* the three trees satisfy the hypothesis of walk_total_all ... *)
+Example cx_all_local_ok3 : forall html dup,
+  all_local_ok3 (tt_env html dup) cx_nested = true
+  /\ all_local_ok3 (tt_env html dup) cx_dup = true
+  /\ all_local_ok3 (tt_env html dup) (tt_tbl [tt_tr [tt_tc []]]) = true.
+Proof. intros [|] [|]; repeat split; vm_compute; reflexivity. Qed.
+
+(* ... so they are extracted and rendered by the theorem (no computation) *)
+Example cx_extracted : forall html dup,
+  (exists s, collect_from (tt_env html dup) [] cx_nested = Ok s)
+  /\ (exists s, collect_from (tt_env html dup) [] cx_dup = Ok s)
+  /\ (exists s, collect_from (tt_env html dup) [] (tt_tbl [tt_tr [tt_tc []]]) = Ok s).
+Proof.
+  intros html dup. destruct (cx_all_local_ok3 html dup) as (A & B & C).
+  repeat split; apply collect_total_all; assumption.
+Qed.
+
+(* they remain outside the OLD hypothesis ([row_ok] / [cell_ok]); (b) only when its
+   cell is to be duplicated: all_local_ok3 is strictly weaker than all_local_ok2 *)
 Example cx_excluded : forall html dup,
   all_local_ok2 (tt_env html dup) cx_nested = false
   /\ all_local_ok2 (tt_env html true) cx_dup = false
@@ -1341,7 +1604,8 @@ Example tt_sdt_cell_ok : forall html dup, all_local_ok2 (tt_env html dup) tt_sdt
 Proof. intros [|] [|]; vm_compute; reflexivity. Qed.
 
 Print Assumptions close_table_cell_total.
-Print Assumptions close_table_cell_ok_iff.
+Print Assumptions close_table_cell_total_now.
+Print Assumptions close_table_cell_ok_iff_now.
 Print Assumptions walk_total_tables.
 Print Assumptions collect_total_tables_strong.
 Print Assumptions collect_total_tables.
@@ -1350,9 +1614,19 @@ Print Assumptions all_local_ok'_all_local_ok2.
 Print Assumptions tt_doc_ok.
 Print Assumptions tt_doc_collects.
 Print Assumptions tt_doc_result.
-Print Assumptions walk_total_tables_counterexample.
-Print Assumptions walk_total_tables_dup_counterexample.
-Print Assumptions cell_without_paragraph_counterexample.
+Print Assumptions walk_total_tables_repaired.
+Print Assumptions walk_total_tables_dup_repaired.
+Print Assumptions cell_without_paragraph_repaired.
+Print Assumptions cx_dup_result.
+Print Assumptions cx_all_local_ok3.
+Print Assumptions cx_extracted.
+Print Assumptions walk_total_all.
+Print Assumptions collect_total_all_strong.
+Print Assumptions collect_total_all.
+Print Assumptions rendering_total_all.
+Print Assumptions all_local_ok2_all_local_ok3.
+Print Assumptions all_local_ok2_weak_all_local_ok3.
+Print Assumptions all_local_ok'_all_local_ok3.
 Print Assumptions J2_naive_counterexample.
 Print Assumptions tt_sdt_cell_ok.
 Print Assumptions cell_ok_ends_with_par.
